@@ -1,7 +1,7 @@
 #!/bin/sh
 # Builds the whole framework offline from files on disk: extractor, harness, Lean development.
 set -e
-cd /verif
+cd "$(dirname "$0")"
 export GOFLAGS=-mod=mod GOPROXY=off GOSUMDB=off GOTOOLCHAIN=local
 mkdir -p build/work
 (cd extract && go build -o ../build/extract .)
